@@ -1025,6 +1025,7 @@ func (w *world) judge(rs *reqState) {
 	}
 	sent := map[int]bool{}      // blocks already sent by this request
 	inWindow := map[int]bool{} // blocks of the first `skip` links (the requestor declared it has them)
+	knownReported := false
 	for i, it := range got {
 		idx := int64(i + 1)
 		excluded := !it.present || ign[it.block] || idx <= skip
@@ -1038,9 +1039,16 @@ func (w *world) judge(rs *reqState) {
 		}
 		if !rs.overlap && !excluded && !sent[it.block] && !it.plus {
 			if inWindow[it.block] {
-				// the block is one of the first `skip` blocks: "excluded by do-not-send-first-blocks"
-				// can be read per link or per block; both readings are accepted here.
+				// KNOWN FINDING (known_findings.json, class skip-window-revisit): the link lies after the
+				// do-not-send-first-blocks window and its block has not been sent, so the property sentence
+				// wants the block here; the code withholds it because an earlier link of the same block fell
+				// inside the window.  Exactly this input class gets this class; the check goes on.
+				if !knownReported {
+					w.out.Fail("skip-window-revisit", "req %d: present link #%d (block %d, skip=%d) is past the do-not-send-first-blocks window, not excluded and not yet sent, but no block accompanies it (the block's earlier link was inside the window)", s.id, idx, it.block, skip)
+					knownReported = true
+				}
 				w.out.Cov("oracle:skip-window-revisit")
+				sent[it.block] = true // the sentence would have sent it here; later links of it are duplicates
 			} else {
 				w.out.Fail("block-attach", "req %d: present link #%d (block %d) not excluded and not yet sent, but no block accompanies it", s.id, idx, it.block)
 				return
